@@ -6,5 +6,5 @@ CONSTANTS
   KeepRawUnitWhenValueUnchanged = FALSE
   GenFull = 5
   GenSub = 5
-INVARIANTS DeclEqOp StoredIsTidied Emit
+INVARIANTS Emit
 CHECK_DEADLOCK FALSE
